@@ -219,8 +219,9 @@ func u32s(v ...int64) []uint64 {
 
 // fdSet is the same in every descriptor-table state: 0..13 covers the standard
 // streams, the pre-opens and every descriptor any state set-up opens or
-// renumbers to, 63/64 the bitmap word boundary of the table.
-var fdSet = append(u32s(-1, 0, 1, 2, 3, 4, 5, 6, 7, 8, 9, 10, 11, 12, 13, 63, 64, 1<<20, 1<<27, 1<<31-1), 1<<31, 1<<32-2)
+// renumbers to, 62..66 and 126..130 the 64-descriptor block boundaries of the
+// table (open in the many-descriptor states).
+var fdSet = append(u32s(-1, 0, 1, 2, 3, 4, 5, 6, 7, 8, 9, 10, 11, 12, 13, 62, 63, 64, 65, 66, 126, 127, 128, 129, 130, 1<<20, 1<<27, 1<<31-1), 1<<31, 1<<32-2)
 
 // values returns the boundary set of a role (first element = the nice value).
 func (r role) values(e *genEnv) []uint64 {
